@@ -123,10 +123,23 @@ func TestVerif_C20(t *testing.T) {
 	defer recMem.Write(t)
 	recNBS := vh.NewRecorder("C20", "schedules_nbs", "exploration", c20Rule, assume...)
 	defer recNBS.Write(t)
-	vh.Check(t, "schedules_mem", 700, 2500, func(rt *rapid.T) {
+	vh.Check(t, "schedules_mem", 1000, 2500, func(rt *rapid.T) {
 		c20Case(t, rt, recMem, []string{verifRModeMemShared, verifRModeMemViews})
 	})
-	vh.Check(t, "schedules_nbs", 250, 800, func(rt *rapid.T) {
+	vh.Check(t, "schedules_nbs", 350, 800, func(rt *rapid.T) {
 		c20Case(t, rt, recNBS, []string{verifRModeNBSShared, verifRModeNBSHandles, verifRModeNBSHandles})
 	})
+}
+
+const c20RuleConc = "G=2-4 goroutines (sharing one datas.Database value, or one Database each, over one memory view / one NBS file-manifest store / one journaling store; binary built with -race) execute rapid-drawn plans of 4-12 calls each (Commit plain/merge/force/amend, CommitWithWorkingSet, UpdateWorkingSet, FastForward, SetHead, Tag, Delete, snapshot refresh, whole-map reads from one store root) on 2 branches, their working sets and 2 tags; every call is recorded with logical call/return times and its inputs (snapshot heads, the address of the commit it builds, working-set addresses), and the history plus a final read is checked for linearizability with porcupine against the same edit evaluation the deterministic schedules use. A Delete rejected with ErrMergeNeeded is accepted only if an accepted write of another goroutine to that dataset overlaps it. Non-trivial: >= 1 rejected call and >= 2 accepted writes of different goroutines that overlap in time; distinct by the hash of (mode, G, plans)."
+
+// TestVerif_C20_goroutines is the thorough-tier real-concurrency variant (run with -race).
+func TestVerif_C20_goroutines(t *testing.T) {
+	rec := vh.NewRecorder("C20", "goroutines", "exploration", c20RuleConc,
+		"goroutine variant: a history porcupine cannot decide within 30 s is counted as undecided, not as a failure",
+		"goroutine variant: tags always point at the setup commit and working-set metas come from {0,1}, so that every address a call can write is known before the goroutines start")
+	defer rec.Write(t)
+	cfg := verifCConfig{part: "goroutines", readPc: 12,
+		kinds: verifRWeighted(map[string]int{verifRCommit: 24, verifRCommitWS: 14, verifRUpdateWS: 12, verifRFF: 12, verifRSetHead: 9, verifRTag: 5, verifRDelete: 8, verifRRefresh: 10}, verifRKindOrder)}
+	vh.Check(t, "goroutines", 40, 300, func(rt *rapid.T) { verifCCase(t, rt, rec, cfg) })
 }
